@@ -6,7 +6,7 @@ K13 == {1, 3}
 K1 == {1}
 V5 == {5}
 \* statement families for the behaviour generators
-ActsAll == Actions
+ActsAll == {a \in Actions : a.act # "selectcase"}     \* (selectcase: a family of its own - csvq deviates there, a known finding)
 Only(names) == {a \in Actions : a.act \in names}
 \* COMMIT that cannot encode one of several changed files (f1 gets the encoding and the text; f2, NewFile are the others)
 ActsCommitFail == {a \in Only({"setenc", "inserth"}) : a.t = "f1"}
@@ -39,6 +39,8 @@ ActsTyped == {a \in Only({"insertd", "deleted", "selectd", "select", "update", "
 \* one name, two directories: the repository is changed between statements on f1
 ActsDirs == Only({"chdir", "commit", "rollback"})
             \cup {a \in Only({"select", "insert1", "update", "delete", "selectagg", "disk", "replace", "insertsel", "callins"}) : a.t \in {"f1", "g1"} /\ a.k \in {0, 1} /\ a.u \in {"", "f1", "g1"}}
+\* a name that differs from an existing table's in letter case only
+ActsCase == {a \in Only({"selectcase", "select", "update", "insert1", "commit", "rollback", "disk"}) : a.t \in {"f1", ""} /\ a.k \in {0, 1}}
 \* reads of every form around commits of another process
 ActsReads == Only({"select", "selectsub", "selectfn", "selectinline", "selectagg", "selectpath", "insertpath", "env", "update", "insertsel", "updatejoin", "commit", "rollback"})
 \* a procedure that reads, executes nested statements and reads again while another process commits in between
